@@ -32,6 +32,8 @@ def one(kind, name, checks, edits):
     S = tempfile.mkdtemp(prefix="verif-self-")
     try:
         subprocess.check_call(["rsync", "-a", "--exclude", "target", "--exclude", ".git", "/repo/", S + "/repo/"])
+        # fresh mtimes: the shared target directory must never reuse the previous entry's artefacts
+        subprocess.check_call("find %s/repo -type f \\( -name '*.rs' -o -name 'Cargo.toml' \\) -exec touch {} +" % S, shell=True)
         err = apply(S + "/repo", edits)
         if err:
             return (kind, name, "STALE", err)
